@@ -28,6 +28,12 @@ TEXT = {
          "(model parser on the real printer's output and on arbitrary generated texts incl. rejects, real parser on the model printer's output) and the "
          "statement itself checked on the implementation for expressions, policies, templates and policy sets with evaluation on random requests.",
          "proof over a hand-written model; parse_print proved for a fragment only; correspondence sampled + an exhaustive operator-pair grid; the harness tokenizer is trusted"),
+ "C06": ("Lean theorems over a mirror of the JSON policy format (est/expr.rs, est.rs, scope_constraints.rs, entities/json/value.rs): est_roundtrip "
+         "(toExpr (ofExpr e) = e for every well-formed expression), est_policy_roundtrip (policies/templates and link records), est_eval (an accepted JSON policy "
+         "evaluates as the expression it denotes), pst/proto round trips on message-tree models; the property itself (JSON via CST->EST and AST->EST, PST, protobuf, "
+         "policy sets with links, equal responses, printed-text re-parse) is checked on the implementation for generated text and hand-built JSON policies, and the "
+         "compiled model is compared with from_json/to_json by cross-composition.",
+         "proof over a hand-written model; prost's byte encoding and serde/serde_json are NOT modelled: only their round trip is sampled; PST/protobuf theorems are about tree models"),
  "C07": ("Lean theorems over mirrors of the decimal/ip/datetime/duration parsers and operations (written-out recognisers + checked arithmetic); the model is the "
          "definition of 'exact': any disagreement with the real extension functions on generated strings/values is a failing input.",
          "proof over a hand-written model; std::net / chrono / regex are inside the implementation under check and are re-defined in the model"),
